@@ -91,6 +91,20 @@ class OpaqueStr:
         return MISSING
 
 
+class NamedPair(tuple):
+    """result of torch.topk / torch.sort: a tuple with named fields"""
+
+    def __new__(cls, items, names):
+        o = super().__new__(cls, items)
+        o.names = names
+        return o
+
+    def sym_getattr(self, interp, name):
+        if name in self.names:
+            return self[self.names.index(name)]
+        return MISSING
+
+
 class Partial:
     def __init__(self, fn, args, kwargs):
         self.fn, self.args, self.kwargs = fn, args, kwargs
